@@ -21,7 +21,8 @@ structure OptSpec where
   desc      : List Nat := []
   level     : Nat := 0
   group     : Nat := 0
-  kind      : Nat := 0                 -- target type (0 int, 1 string, 2 flag, 3 vector<int>): used by C15 only
+  kind      : Nat := 0                 -- target type (0 int, 1 string, 2 flag, 3 vector<int>, …): used by C15 only
+  glevel    : Nat := 0                 -- description level of the OptionGroup object the option was added with (C19)
 deriving Repr, DecidableEq
 
 structure Context where
